@@ -531,4 +531,151 @@ theorem commitAll_spec {acct : String} {caller : Nat} (hdw : distributedWallet a
       show view (runAll _ (onCommit c i caller acct).1 rest).1 acct k = _
       rw [hfr2 k (fun h => hk (List.mem_cons_of_mem _ h)), hfr k (fun e => hk (e ▸ List.mem_cons_self))]
 
+/-! ## the whole generation -/
+
+/-- after every participant has executed, each holds exactly the participants' contributions -/
+theorem executed_complete {acct : String} {t : Nat} {parts order : List Nat} {c : Cluster}
+    (hnd : parts.Nodup) (horder : order.Perm parts) (h : Inv acct t parts c (swapped parts order))
+    {i : Nat} (hi : i ∈ parts) :
+    ∃ s, view c acct i = some (some s, false) ∧ s.participants = parts ∧ s.started = c.now ∧
+      (∀ k ∈ parts, k ∈ s.contributed) ∧ s.contributed.length = s.participants.length := by
+  obtain ⟨s, hv, _, hp, hn, hd, hm⟩ := h.2 i hi
+  have hmem : ∀ k, k ∈ s.contributed ↔ k ∈ parts := by
+    intro k
+    rw [hm k]
+    have ho : ∀ a, a ∈ order ↔ a ∈ parts := fun a => horder.mem_iff
+    simp only [swapped, ho]
+    constructor
+    · rintro (e | ⟨_, hk, _⟩ | ⟨hk, _, _⟩)
+      · exact e ▸ hi
+      · exact hk
+      · exact hk
+    · intro hk
+      rcases Nat.lt_trichotomy k i with hlt | heq | hgt
+      · exact Or.inr (Or.inr ⟨hk, hi, hlt⟩)
+      · exact Or.inl heq
+      · exact Or.inr (Or.inl ⟨hi, hk, hgt⟩)
+  refine ⟨s, hv, hp, hn, fun k hk => (hmem k).mpr hk, ?_⟩
+  rw [hp]
+  exact ((List.perm_ext_iff_of_nodup hd hnd).mpr hmem).length_eq
+
+/-- A fault-free generation succeeds.  `parts`: distinct non-zero ids of configured peers, each with an
+    instance that neither holds `acct` nor has a generation for it; `acct` in a distributed wallet; the
+    caller is one of them; any threshold; prepares in list order, executes in ANY order `order`, commits
+    in list order, no clock advance in between.  No assumption on the timeout is needed (the age of every
+    generation is `c.now - c.now = 0`), nor on `parts.length`, nor on further instances in the cluster. -/
+theorem generation_succeeds (c0 : Cluster) (parts order : List Nat) (acct : String) (t init : Nat)
+    (hnd : parts.Nodup) (hnz : ∀ i ∈ parts, i ≠ 0) (hpeers : ∀ i ∈ parts, c0.peers.contains i = true)
+    (hdw : distributedWallet acct = true)
+    (hfresh : ∀ i ∈ parts, ∃ x, getInst c0 i = some x ∧ x.sessions.lookup acct = none ∧ acct ∉ x.accounts)
+    (hinit : init ∈ parts) (horder : order.Perm parts) :
+    let p := prepareAll c0 init acct t parts parts
+    let e := executeAll p.1 init acct order
+    let m := commitAll e.1 init acct parts
+    p.2 = List.replicate parts.length Reply.ok ∧
+    e.2 = List.replicate parts.length Reply.ok ∧
+    (∀ i ∈ parts, ∃ x s, getInst e.1 i = some x ∧ x.sessions.lookup acct = some s ∧
+      sessionOf e.1 i acct = some s ∧ s.participants = parts ∧
+      (∀ k ∈ parts, k ∈ s.contributed) ∧ s.contributed.length = s.participants.length) ∧
+    m.2 = List.replicate parts.length Reply.ok ∧
+    ∀ i ∈ parts, ∃ x, getInst m.1 i = some x ∧ acct ∈ x.accounts ∧ x.sessions.lookup acct = none := by
+  intro p e m
+  have hp0 : senderId c0 init ≠ 0 := senderId_of_peer (hpeers init hinit) (hnz init hinit)
+  -- prepare
+  have hv0 : ∀ i ∈ parts, view c0 acct i = some (none, false) := by
+    intro i hi
+    obtain ⟨x, hx, hl, ha⟩ := hfresh i hi
+    simp [view, hx, hl, ha]
+  obtain ⟨hpok, hpv, _, hpe⟩ := prepareAll_spec (acct := acct) (caller := init) t parts parts c0 hp0 hnd hv0
+  have hinv1 : Inv acct t parts p.1 (swapped parts []) := by
+    refine ⟨fun i hi => by rw [hpe.1]; exact hpeers i hi, ?_⟩
+    intro i hi
+    refine ⟨_, hpv i hi, rfl, rfl, hpe.2.1.symm, by simp, ?_⟩
+    intro k
+    simp [swapped]
+  -- execute
+  obtain ⟨heok, hinv2⟩ := executeAll_inv (caller := init) hnd hnz hinit order p.1 [] hinv1
+    (horder.nodup_iff.mpr hnd) (fun i hi => ⟨horder.mem_iff.mp hi, List.not_mem_nil⟩)
+  rw [List.nil_append] at hinv2
+  have hlen : order.length = parts.length := horder.length_eq
+  have hcomplete := fun i hi => executed_complete (i := i) hnd horder hinv2 hi
+  -- commit
+  have hp2 : senderId e.1 init ≠ 0 := senderId_of_peer (hinv2.1 init hinit) (hnz init hinit)
+  obtain ⟨hmok, hmv, _, _⟩ := commitAll_spec (caller := init) hdw parts e.1 hp2 hnd (by
+    intro i hi
+    obtain ⟨s, hv, hps, hn, hall, hl⟩ := hcomplete i hi
+    exact ⟨s, hv, hn, hl, by rw [hps]; exact hall⟩)
+  refine ⟨?_, ?_, ?_, ?_, ?_⟩
+  · rw [hpok, List.map_const']
+  · rw [heok, List.map_const', hlen]
+  · intro i hi
+    obtain ⟨s, hv, hps, hn, hall, hl⟩ := hcomplete i hi
+    obtain ⟨x, hx, hlk, _⟩ := view_some hv
+    refine ⟨x, s, hx, hlk, ?_, hps, hall, hl⟩
+    rw [sessionOf_eq hx, active_live hlk hn]
+  · rw [hmok, List.map_const']
+  · intro i hi
+    obtain ⟨x, hx, hlk, ha⟩ := view_some (hmv i hi)
+    exact ⟨x, hx, by simpa using ha, hlk⟩
+
+/-! ## on a fresh cluster whose instances are exactly the participants -/
+
+/-- one pristine instance per participant -/
+def freshCluster (parts peers : List Nat) (timeout now : Nat) : Cluster :=
+  { insts := parts.map (fun i => { id := i }), peers := peers, timeout := timeout, now := now }
+
+theorem find_fresh (l : List Nat) (i : Nat) (hi : i ∈ l) :
+    (l.map (fun j => ({ id := j } : DInst))).find? (·.id == i) = some { id := i } := by
+  induction l with
+  | nil => cases hi
+  | cons j rest ih =>
+    simp only [List.map_cons, List.find?_cons]
+    by_cases hj : j = i
+    · subst hj; simp
+    · have : (j == i) = false := by simp [hj]
+      simp only [this]
+      rcases List.mem_cons.mp hi with e | e
+      · exact absurd e.symm hj
+      · exact ih e
+
+theorem getInst_freshCluster (parts peers : List Nat) (timeout now : Nat) {i : Nat} (hi : i ∈ parts) :
+    getInst (freshCluster parts peers timeout now) i = some { id := i } :=
+  find_fresh parts i hi
+
+/-- the statement as asked for: a fresh cluster whose instances are exactly the participants (at least
+    two of them), no instance holding `acct` -/
+theorem generation_succeeds_fresh (parts peers order : List Nat) (timeout now : Nat) (acct : String)
+    (t init : Nat) (hnd : parts.Nodup) (hnz : ∀ i ∈ parts, i ≠ 0) (hpeers : ∀ i ∈ parts, i ∈ peers)
+    (_hlen : 2 ≤ parts.length) (hdw : distributedWallet acct = true) (hinit : init ∈ parts)
+    (horder : order.Perm parts) :
+    let c0 := freshCluster parts peers timeout now
+    let p := prepareAll c0 init acct t parts parts
+    let e := executeAll p.1 init acct order
+    let m := commitAll e.1 init acct parts
+    p.2 = List.replicate parts.length Reply.ok ∧
+    e.2 = List.replicate parts.length Reply.ok ∧
+    (∀ i ∈ parts, ∃ x s, getInst e.1 i = some x ∧ x.sessions.lookup acct = some s ∧
+      sessionOf e.1 i acct = some s ∧ s.participants = parts ∧
+      (∀ k ∈ parts, k ∈ s.contributed) ∧ s.contributed.length = s.participants.length) ∧
+    m.2 = List.replicate parts.length Reply.ok ∧
+    ∀ i ∈ parts, ∃ x, getInst m.1 i = some x ∧ acct ∈ x.accounts ∧ x.sessions.lookup acct = none :=
+  generation_succeeds (freshCluster parts peers timeout now) parts order acct t init hnd hnz
+    (fun i hi => by simpa [freshCluster] using hpeers i hi) hdw
+    (fun i hi => ⟨_, getInst_freshCluster parts peers timeout now hi, rfl, by simp⟩) hinit horder
+
+/-- three participants 1, 2, 3; executes in the order 2, 3, 1 -/
+example :
+    let c0 := freshCluster [1, 2, 3] [1, 2, 3] 600 0
+    let p := prepareAll c0 1 "DW/k" 2 [1, 2, 3] [1, 2, 3]
+    let e := executeAll p.1 1 "DW/k" [2, 3, 1]
+    let m := commitAll e.1 1 "DW/k" [1, 2, 3]
+    p.2 = [.ok, .ok, .ok] ∧ e.2 = [.ok, .ok, .ok] ∧
+    (∀ i ∈ [1, 2, 3], ∃ x s, getInst e.1 i = some x ∧ x.sessions.lookup "DW/k" = some s ∧
+      sessionOf e.1 i "DW/k" = some s ∧ s.participants = [1, 2, 3] ∧
+      (∀ k ∈ [1, 2, 3], k ∈ s.contributed) ∧ s.contributed.length = s.participants.length) ∧
+    m.2 = [.ok, .ok, .ok] ∧
+    ∀ i ∈ [1, 2, 3], ∃ x, getInst m.1 i = some x ∧ "DW/k" ∈ x.accounts ∧ x.sessions.lookup "DW/k" = none :=
+  generation_succeeds_fresh [1, 2, 3] [1, 2, 3] [2, 3, 1] 600 0 "DW/k" 2 1 (by decide) (by decide) (by decide)
+    (by decide) (by simp [distributedWallet]) (by decide) (by decide)
+
 end Dirk.Dkg
